@@ -123,6 +123,16 @@ def _stmt_of(g, c):
         gp = g.parent.get(par)
         if gp is not None and g.nodes[gp]["k"] == "compound":
             return "init", par
+    # the whole (possibly negated) condition of a branch: if (helper(..)) / if (!helper(..)) / a && helper(..)
+    pos = g.pos_of(c)
+    if pos is not None:
+        t = g.blocks[pos[0]].get("term")
+        if t and isinstance(t.get("cond"), int) and t["cond"] >= 0 and len(g.blocks[pos[0]].get("succ", [])) == 2 and t.get("cls") in (
+                "IfStmt", "BinaryOperator", "WhileStmt", "ForStmt", "ConditionalOperator"):
+            x = g.nodes[g.strip(t["cond"])]
+            if g.strip(t["cond"]) == c or (x["k"] == "un" and x.get("op") == "!" and g.strip(x["sub"]) == c) or \
+                    (x["k"] == "call" and x.get("op") == "!" and "recv" in x and g.strip(x["recv"]) == c):
+                return "cond", g.strip(t["cond"])
     if pn["k"] == "bin" and pn.get("op") == "=" and g.strip(pn["r"]) == c and g.nodes[g.strip(pn["l"])]["k"] == "ref" \
             and g.nodes[g.strip(pn["l"])].get("dk") == "local":
         gp = g.parent.get(par)
@@ -167,6 +177,15 @@ def _fold(prog, g, c, h):
             init_mode = ("value", vals[0])
         else:
             return None
+    if shape == "cond":
+        if not rets or any(h.nodes[r].get("val") is None or h.nodes[r].get("val", -1) < 0 for r in rets):
+            return None
+        if (h.d.get("ret") or "").replace("const ", "").strip() != "bool":
+            return None
+        Bc = g.blocks[pos[0]]
+        tail = [e.get("n") for e in Bc["elems"][pos[1] + 1:]]
+        if any(x is None or (x != stmt) for x in tail):
+            return None          # something else is evaluated after the call in that block
     if shape == "stmt" and any(h.nodes[r].get("val") is not None and h.nodes[r].get("val", -1) >= 0 for r in rets):
         # a value is computed and dropped: fine, it is evaluated in place of the return
         pass
@@ -282,6 +301,15 @@ def _fold(prog, g, c, h):
                 m["lusr"] = l2.usr
     # ---- return nodes
     ret_ids = [r + off for r in rets]
+    cond_rets = []
+    if shape == "cond":
+        for r in ret_ids:
+            m = g.nodes[r]
+            cond_rets.append((r, m.get("val")))
+            lm = {k_: m[k_] for k_ in ("line", "col") if k_ in m}
+            val = m.get("val")
+            m.clear()
+            m.update({"id": r, "k": "other", "cls": "InlinedReturn", "kids": [val], **lm})
     if shape in ("stmt", "init", "assign"):
         for r in ret_ids:
             m = g.nodes[r]
@@ -330,6 +358,51 @@ def _fold(prog, g, c, h):
             lab["n"] += off
         new_blocks.append(nb)
     elems = B["elems"]
+    if shape == "cond":
+        xn = g.nodes[stmt]
+        neg = stmt != c
+        s_true, s_false = B["succ"][0], B["succ"][1]
+        if neg:
+            s_true, s_false = s_false, s_true
+        term0 = dict(B.get("term") or {})
+        by_id = {nb["id"]: nb for nb in new_blocks}
+        for r, val in cond_rets:
+            rb = None
+            for nb in new_blocks:
+                if any(e.get("n") == r for e in nb.get("elems", [])):
+                    rb = nb
+            if rb is None:
+                raise ValueError("return not in CFG")
+            vn = g.nodes[g.strip(val)]
+            if vn["k"] == "lit" and vn.get("lk") == "bool":
+                rb["succ"] = [s_true if vn.get("v") == "true" else s_false]
+                rb.pop("term", None)
+            else:
+                rb["term"] = {"cls": "IfStmt", "cond": val, "stmt": term0.get("stmt", -1), "line": term0.get("line", 0)}
+                rb["succ"] = [s_true, s_false]
+        B["elems"] = elems[:e_idx]
+        B.pop("term", None)
+        B["succ"] = [hentry]
+        g.cfg.extend(new_blocks)
+        g.blocks = {b["id"]: b for b in g.cfg}
+        body = (h.body + off) if isinstance(h.body, int) and h.body >= 0 else None
+        g._parent = None
+        # the helper's body stands before the statement that holds the condition
+        anc = None
+        for a_ in g.ancestors(stmt):
+            pa = g.parent.get(a_)
+            if pa is not None and g.nodes[pa]["k"] == "compound":
+                anc = (pa, a_)
+                break
+        if body is not None and anc is not None:
+            pk = g.nodes[anc[0]].get("kids", [])
+            if anc[1] in pk:
+                pk.insert(pk.index(anc[1]), body)
+        g._parent = None
+        g._pos = None
+        g._dup = None
+        g.d.setdefault("inlined", []).append(h.pq)
+        return "%s folded into %s (condition at %s)" % (h.pq, g.pq, where)
     if shape == "tail":
         # everything after the call in this block is the return itself (and scope-exit destructors, which stay with the exit path)
         r_idx = next((k for k in range(e_idx + 1, len(elems)) if elems[k].get("n") == stmt), None)
@@ -419,11 +492,27 @@ def fold_new_helpers(prog, rounds=3):
                 if plain(h.d["qname"]) in known or h.d.get("virtual") or h.name.startswith("operator"):
                     continue
                 ss = sites.get(h.usr, [])
-                if len(ss) != 1 or ss[0][1] < 0:
+                # one call site - or the same call site in several instantiations of one template
+                if not ss or any(x[1] < 0 for x in ss) or len({(x[0].pq, x[0].line, x[1]) for x in ss}) != 1:
                     continue
-            g, c = ss[0]
-            if g is h or g.usr == h.usr:
+            if any(g_ is h or g_.usr == h.usr for g_, _ in ss):
                 continue
+            for g, c in ss[1:]:
+                snap_ = (copy.deepcopy(g.nodes), copy.deepcopy(g.cfg), copy.deepcopy(g.d.get("tries", [])))
+                try:
+                    if not _fold(prog, g, c, h):
+                        raise ValueError("shape")
+                except Exception:
+                    g.nodes[:] = snap_[0]
+                    g.cfg[:] = snap_[1]
+                    g.d["tries"] = snap_[2]
+                    g.blocks = {b["id"]: b for b in g.cfg}
+                    g._parent = g._pos = g._dup = None
+                    ss = []
+                    break
+            if not ss:
+                continue
+            g, c = ss[0]
             # helpers that call other new helpers are folded inner-first: wait until this one calls no foldable function
             snap = (copy.deepcopy(g.nodes), copy.deepcopy(g.cfg), copy.deepcopy(g.d.get("tries", [])), set(prog.fns))
             try:
